@@ -167,12 +167,10 @@ def evalLoop (stride : Nat) (n : Nat) (ub : Int) : Nat → Int → List Int → 
 def SI.eval (s : SI) (n : Nat) (signed : Bool) : R (List Int) :=
   if s.bottom then pure []
   else if s.stride = 0 ∧ n > 0 then pure [if signed then toSigned s.lb s.bits else (s.lb : Int)]
-  else do
-    let bounds ← if signed then s.signedBounds else s.unsignedBounds
-    let mut results : List Int := []
-    for (lb, ub) in bounds do
-      results := evalLoop s.stride n ub n lb results
-    return results
+  else
+    match (if signed then s.signedBounds else s.unsignedBounds) with
+    | .error e => .error e
+    | .ok bounds => .ok (bounds.foldl (fun results p => evalLoop s.stride n p.2 n p.1 results) [])
 
 /-- `max(signed)` / `min(signed)`; `none` for the empty interval -/
 def SI.max (s : SI) (signed : Bool) : R (Option Int) :=
